@@ -469,8 +469,13 @@ class EventDriver:
             self.ident[id(o)] = i
         return self.made[i]
 
+    fresh = True      # maintained by run_ops: only fresh histories are inside the property
+
     def cap(self):
-        return 4 * len(self.made) + 8
+        # fresh particles: no accessor can return more particles than exist.  After a particle was re-added
+        # (outside the property) cycles are legitimate and level lists grow geometrically: generous cap, and
+        # exceeding it only ends the history
+        return 4 * len(self.made) + 8 if self.fresh else 5000
 
     def ids(self, objs, what):
         objs = list(objs) if not isinstance(objs, list) else objs
@@ -638,20 +643,38 @@ def gen_history(rng, max_nodes, fresh_only, shape):
     return {"roots": roots, "single_root": nroots == 1 and rng.random() < 0.5, "ops": ops, "fresh": fresh, "shape": shape}
 
 
-def tree_property(d, ref):
-    """The property as stated, judged with the harness's own reference tree (fresh particles only)."""
+def tree_property(d, ref, watch_state=True):
+    """The property as stated, judged with the harness's own reference tree (fresh particles only).
+    With watch_state every accessor call is also required to leave (roots, _all, _children) unchanged;
+    the first accessor that changes it is reported together with its first visible consequence."""
     bad = []
+    s0 = d.snapshot() if watch_state else None
+
+    def unchanged(label):
+        if watch_state and not bad and d.snapshot() != s0:
+            after = d.snapshot()
+            later = tree_property(d, ref, watch_state=False)
+            bad.append("the read %s changed the state of the event from %s to %s%s" % (
+                label, list(s0), list(after), ("; afterwards " + later[0]) if later else ""))
+            return False
+        return True
     it = d.iterate()[1]
+    if not unchanged("iteration"):
+        return bad
     if sorted(it) != sorted(ref.nodes) or len(set(it)) != len(it):
         bad.append("iteration returns %s, the event holds %s (each exactly once expected)" % (it, sorted(ref.nodes)))
     if d.length()[1] != len(ref.nodes):
         bad.append("len(event)=%d, %d particles were added" % (d.length()[1], len(ref.nodes)))
     for q in ref.nodes:
         ch = d.children(q)
+        if not unchanged("get_children(%d)" % q):
+            return bad
         ch = ch[1] if ch != "err" else None
         if ch is None or sorted(ch) != sorted(ref.children[q]) or len(set(ch)) != len(ch):
             bad.append("get_children(%d)=%s, expected the set %s" % (q, ch, ref.children[q]))
         par = d.parent(q)
+        if not unchanged("get_parent(%d)" % q):
+            return bad
         if par == "err" or par[1] != ref.parent[q]:
             bad.append("get_parent(%d)=%s, expected %s" % (q, par if par == "err" else par[1], ref.parent[q]))
         for c in ch or []:
@@ -663,6 +686,8 @@ def tree_property(d, ref):
     seen = []
     for lv in range(len(ref.nodes) + 2):
         l = d.level(lv)
+        if not unchanged("get_from_level(%d)" % lv):
+            return bad
         l = l[1] if l != "err" else None
         if l is None or sorted(l) != sorted(ref.level(lv)):
             bad.append("get_from_level(%d)=%s, expected the set %s" % (lv, l, ref.level(lv)))
@@ -678,12 +703,13 @@ def tree_property(d, ref):
     return bad[:3]
 
 
-def run_ops(pp, rec, seconds=4.0, battery=True):
+def run_ops(pp, rec, seconds=20.0, battery=True):
     """Execute a recorded history on a real Event.  After EVERY operation (reads included): the full state
     (roots, _all, _children) is recorded, a read must leave it unchanged, and (fresh histories) every accessor
     is compared with the reference tree.  Returns (answers, states, failure text or None)."""
     answers, states, failure = [], [], None
     step = -1
+    fresh = True
     try:
         with Watchdog(seconds, "history"):
             d = EventDriver(pp, rec)
@@ -709,6 +735,7 @@ def run_ops(pp, rec, seconds=4.0, battery=True):
                             ref.add(op[1], op[2])
                         else:
                             fresh = False
+                        d.fresh = fresh
                         present.update(op[2])
                     elif op[1] in present:
                         failure = failure or "step %d: add_children(%d, %s) raised ValueError although %d is in the event" % (step, op[1], op[2], op[1])
@@ -726,7 +753,12 @@ def run_ops(pp, rec, seconds=4.0, battery=True):
                     break
                 before = d.snapshot()
     except Bound as e:
-        failure = failure or "step %d (%s): %s" % (step, rec["ops"][step] if 0 <= step < len(rec["ops"]) else "init", e)
+        if fresh:
+            failure = failure or "step %d (%s): %s" % (step, rec["ops"][step] if 0 <= step < len(rec["ops"]) else "init", e)
+        else:
+            # a re-added particle made a cycle: outside the property; keep the executed prefix only
+            del rec["ops"][len(answers):]
+            rec["truncated"] = str(e)
     except HarnessTimeout:
         raise
     except Exception as e:
@@ -741,7 +773,7 @@ def shrink_record(pp, rec, budget=15.0):
     cur = dict(rec)
 
     def fails(r):
-        return run_ops(pp, r, seconds=2.0)[2] is not None
+        return run_ops(pp, r, seconds=10.0)[2] is not None
     if not fails(cur):
         return rec
     changed = True
@@ -797,7 +829,7 @@ def corr_tree(ctx, pp, escalate):
             if dist["witnesses"] < 3:
                 dist["witnesses"] += 1
                 small = shrink_record(pp, rec)
-                what = run_ops(pp, small, seconds=2.0)[2] or failure
+                what = run_ops(pp, small, seconds=10.0)[2] or failure
                 ctx.fail("tree:%s" % json.dumps({k: small[k] for k in ("roots", "single_root", "ops")}, sort_keys=True)[:300],
                          "event tree inconsistent: history %s (roots %s): %s" % (json.dumps(small["ops"])[:500], small["roots"], what[:700]),
                          {"kind": "tree", "history": small, "what": [what], "found_in": rec})
